@@ -21,3 +21,4 @@ package util
 //@   mode int
 //@   trusted forwards to bbolt.Tx.Bucket
 //@   requires tx != nil && tx.Tx != nil && tx.Tx.open
+//@   ensures implies(result != nil, result.Bucket != nil)
